@@ -243,6 +243,16 @@ def normUtm (req : UtmReq) (epsg : Int) (south : Bool) : Int :=
   | .utmN => if south then epsg - 100 else epsg
   | .utmS => if !south then epsg + 100 else epsg
 
+/-- which request a string is for `norm_crs` (crs.py:415-433): the text is lower-cased; anything that
+does not start with `utm` is an ordinary CRS definition (`none`); `utm-n` / `utm-s` are the
+hemisphere overrides; every other text starting with `utm` behaves like plain `utm`. -/
+def parseUtm (raw : String) : Option UtmReq :=
+  let t := raw.toLower
+  if !t.startsWith "utm" then none
+  else if t = "utm-n" then some .utmN
+  else if t = "utm-s" then some .utmS
+  else some .utm
+
 /-- first maximum of a list of `(candidate, key)` — `sorted(key=…, reverse=True)[0]` (stable) -/
 def argmaxFirst : List (Nat × Rat) → Option (Nat × Rat)
   | [] => none
